@@ -245,7 +245,8 @@ def range_cases():
 def sum_cases():
     out = []
     for a, b, ne in [("x", None, "x > 0"), ("0", "x", "x > 0"), ("1", "x", "x > 1"), ("x", "y", "y > x"), ("2", "6", "True"),
-                     ("x", "6", "6 > x"), ("-2", "y", "y > -2"), ("3", "1", "False"), ("0", "0", "False")]:
+                     ("x", "6", "6 > x"), ("-2", "y", "y > -2"), ("3", "1", "False"), ("0", "0", "False"),
+                     ("-3", "0", "True"), ("x", "0", "0 > x"), ("-2", "1", "True"), ("-5", "-1", "True")]:
         r = f"range({a})" if b is None else f"range({a}, {b})"
         out.append((f"sum({r})", ne))
         out.append((f"sum(i for i in {r})", ne))
@@ -255,7 +256,9 @@ def sum_cases():
         out.append((f"sum(i * x for i in {r})", ne))
         out.append((f"sum([1 for i in {r}])", ne))
         out.append((f"len([i for i in {r}])", ne))
-    for r, ne in [("range(0, x, 2)", "x > 0"), ("range(1, 6, 2)", "True"), ("range(x, 6, 3)", "6 > x")]:
+    for r, ne in [("range(0, x, 2)", "x > 0"), ("range(1, 6, 2)", "True"), ("range(x, 6, 3)", "6 > x"), ("range(10, 20, 2)", "True"), ("range(1, 11, 5)", "True"),
+                  ("range(0, 9, 3)", "True"), ("range(0, 6, 2)", "True"), ("range(2, 3, 7)", "True"), ("range(-4, 0, 2)", "True"), ("range(-3, 6, 3)", "True")]:
+        out.append((f"sum([i * i for i in {r}])", ne))
         out.append((f"sum({r})", ne))
         out.append((f"sum(i for i in {r})", ne))
     for c in ("[1, 2, 3]", "(1, 2, 3)", "[x, y, 3]", "(x, x)", "[x * 2, y - 1]", "[1, -2]", "[x]", "[-x, x]"):
